@@ -10,6 +10,10 @@ CHECKS = {
    technique="TLA+ spec Shutdown.tla model-checked with TLC (safety + liveness under weak fairness); every TLC behaviour forced on the real SIGINT handler / until_interrupt via scheduling points and on a real howl; events validated by Trace_Shutdown.tla",
    text="TLC proves within the constants that the interrupt protocol (handler: store/swap/wake; poll: accept/load/publish/re-check; wait group) never returns early and never loses the interrupt, and shows the counterexample without the re-check. Every interleaving TLC enumerates is then forced on the real code in a fresh process (real SIGINT, real closure, real poll) and every end-to-end arrival/signal/completion order is run against a real howl; the recorded events are judged by the trace spec. Right level: the property quantifies over schedules, which only exhaustive interleaving exploration settles.",
    note="assumes rt_tokio/Linux, terminating sessions, wakers delivered by the runtime; trusted: ctrlc crate, tokio, the turn-taking controller in harness/src/sd.rs; bounds: <=3 arrivals, <=3 spurious wake-ups, <=2 signals"),
+ "C03": dict(level=MC, design="§4 C03",
+   technique="TLA+ spec RespHeaders.tla: TLC checks exhaustively that the header-map mechanism (slots/values/size, complete(), HEAD rule) refines the ideal response over all operation histories; the same histories and seeded random ones are replayed on a real Response (header block snapshotted after every operation, bytes through router+send re-parsed) and judged step by step by Trace_RespHeaders.tla",
+   text="Within the bounds (all histories of <=4/5 operations over set/append/remove of standard and custom headers with values of different lengths, cookies, body kinds, drop_content, statuses; GET and HEAD) TLC proves that the modelled mechanism keeps `size` exact and emits each live header once; TLC's histories plus random ones (8-40 ops over all 37 user-settable standard headers) are executed on the real code and every intermediate header block and the final wire are judged by the TLA+ oracle `HeadersOK`/`WireOK`; buffer overruns are observed through the guarded capacity assertion. Right level: the property quantifies over operation histories.",
+   note="trusted: harness HTTP response parser, concretisation table, the capacity assertion hook; not compared: header order, Date value; framing headers only manipulated through body operations; 1xx/304 not generated"),
 }
 
 def commits():
